@@ -5,7 +5,7 @@ from sim.seams import Env
 
 PROPERTY = "C06"
 LEVEL = "exploration"
-SCENARIOS = {"shared": 3, "per-instance": 1}
+SCENARIOS = {"shared": 3, "per-instance": 1, "devicevar": 1}
 TIERS = {"quick": {"runs": 12000, "chunk": 30}, "thorough": {"runs": 50000000, "wall_s": 600, "chunk": 200, "recheck": 16}}
 RULE = ("one run = one generated DSL program containing `var += amount` / `var -= amount` "
         "for a drawn 4/8-byte format (i I q Q x), memory kind (array-map variable of the "
@@ -29,7 +29,143 @@ ASSUMPTIONS = ["helper calls are one step (the kernel helper is atomic w.r.t. th
 WIDTH = {"i": 4, "I": 4, "q": 8, "Q": 8, "x": 8}
 
 
+def run_devicevar(tape):
+    """device variables of a fast sync group: a device whose program accumulates into a
+    DeviceVar (read-only or writable from Python), in the real FastSyncGroup program; a fast
+    group always has two frames on the wire, so two or three instances of the program run
+    at once on the shared variable map"""
+    import hashlib
+    from ebpfcat.ebpfcat import Device, DeviceVar, FastEtherCat, FastSyncGroup
+
+    fmt = tape.pick("c06/fmt", ["I", "i", "Q", "q"])
+    w = WIDTH[fmt]
+    mask = (1 << (8 * w)) - 1
+    writable = tape.chance("c06/devicevar-writable", 50)
+    amount_kind = tape.pick("c06/amount", ["small", "large", "var", "expr"])
+    sub_op = tape.chance("c06/minus", 35)
+    ninst = 2 + tape.draw("c06/ninst", 2)
+    small = 1 + tape.draw("c06/small", 1000)
+    large = (1 << 33) + tape.draw("c06/large", 1 << 30) if w == 8 else \
+        0x7fff0000 + tape.draw("c06/large", 0xffff)
+    varval = tape.draw("c06/varval", 1 << 20)
+    pre = tape.draw("c06/pre", 3)
+
+    class Acc(Device):
+        acc = DeviceVar(fmt, write=writable)
+        other = DeviceVar(fmt, write=True)
+        scratch = DeviceVar("I")
+
+        def program(self):
+            for k in range(pre):
+                self.scratch = self.scratch + (k + 1)
+            amt = {"small": small, "large": large, "var": self.other,
+                   "expr": None}[amount_kind]
+            if amount_kind == "expr":
+                amt = self.other * 3 + 7
+            if sub_op:
+                self.acc -= amt
+            else:
+                self.acc += amt
+
+        def update(self):
+            pass
+
+    env = Env(tape, with_kernel=True, possible_cpus=4)
+    world, kernel = env.world, env.kernel
+    violations = []
+    params = dict(fmt=fmt, kind="devicevar", amount=amount_kind, minus=sub_op,
+                  writable=writable)
+
+    def viol(rule, detail, **kw):
+        if not violations:
+            violations.append({"rule": rule, "params": dict(params, **kw), "detail": detail})
+
+    sched = []
+    interleaved = False
+    raw = b""
+    with env:
+        try:
+            ec = FastEtherCat("sim0")
+            dev = Acc()
+            sg = FastSyncGroup(ec, [dev])
+            sg.allocate()
+            sg.packet_index = 5
+            sg.load()
+        except Exception as e:
+            viol("program-cannot-be-generated", f"{params}: {type(e).__name__}: {e}",
+                 exception=type(e).__name__)
+            sg = None
+        if sg is not None:
+            prog = kernel.obj(sg.file_descriptor)
+            raw = bytes(prog.raw) if hasattr(prog, "raw") else b""
+            init = tape.pick("c06/init", [0, 1, mask, mask >> 1, (mask >> 1) + 1,
+                                          tape.draw("c06/initrand", 1 << 30)])
+            signed = fmt.islower()
+
+            def as_fmt(v):
+                v &= mask
+                return v - (1 << (8 * w)) if signed and v >> (8 * w - 1) else v
+            dev.acc = as_fmt(init)
+            dev.other = varval
+            sg.wkc_errors = 1            # outputs enabled: the devices' programs run
+            frame = bytes(b"\xff" * 6 + b"\x02\0\0\0\0\x01\x88\xa4"
+                          + sg.packet.assemble(5, 0x88A4))
+            insts = [kernel.new_instance(prog, bytearray(frame), cpu=i) for i in range(ninst)]
+            uniform = tape.chance("sched/uniform", 40)
+            cur = 0
+            live = list(range(ninst))
+            steps = 0
+            try:
+                while live:
+                    if uniform:
+                        cur = live[tape.draw("sched/pick", len(live))]
+                    elif cur not in live or tape.draw("sched/switch", 6) == 5:
+                        cur = live[tape.draw("sched/pick", len(live))]
+                    sched.append(cur)
+                    if insts[cur].step():
+                        live.remove(cur)
+                    steps += 1
+                    if steps > 20000:
+                        viol("program-did-not-terminate", str(params))
+                        break
+            except Exception as e:
+                viol("interpreter-fault", f"{params}: {type(e).__name__}: {e}")
+            for inst in insts:
+                kernel.discard(inst)
+            interleaved = any(a != b for a, b in zip(sched, sched[1:])) and \
+                len(set(sched)) > 1 and sched != sorted(sched)
+            world.count("c06/instructions", steps)
+            amount = {"small": small, "large": large, "var": varval,
+                      "expr": varval * 3 + 7}[amount_kind]
+            total = ninst * (-amount if sub_op else amount)
+            if not violations:
+                got = dev.acc & mask
+                want = (init + total) & mask
+                if got != want:
+                    viol("update-lost",
+                         f"{params}: {ninst} instances of the group program added "
+                         f"{-amount if sub_op else amount} each to {init:#x}; final {got:#x}, "
+                         f"expected {want:#x} (schedule {''.join(map(str, sched))[:120]})",
+                         interleaved=interleaved)
+                elif dev.other != varval:
+                    viol("other-bytes-changed", f"{params}: the neighbouring device variable "
+                         f"changed from {varval} to {dev.other}")
+    norm = bytearray(raw)
+    for i in range(0, len(norm), 8):
+        if norm[i] == 0x18 and norm[i + 1] >> 4 == 1:
+            norm[i + 4:i + 8] = b"\0\0\0\0"
+    h = hashlib.sha256(bytes(norm) + bytes(sched)).hexdigest()
+    return {
+        "violations": violations, "stats": dict(world.counters), "digest": h,
+        "sim_time": 0.0, "schedule": h, "nontrivial": interleaved,
+        "sample": dict(params, instances=ninst, schedule="".join(map(str, sched))[:80],
+                       program_bytes=len(raw)),
+    }
+
+
 def run(tape, scenario):
+    if scenario == "devicevar":
+        return run_devicevar(tape)
     import hashlib
     from ebpfcat.arraymap import ArrayMap, PerCPUArrayMap
     from ebpfcat.ebpf import LocalVar, Member, Structure, SubProgram
@@ -59,6 +195,7 @@ def run(tape, scenario):
     fval = [0.5, 1.25, 3.0, 1024.75][tape.draw("c06/float", 4)]   # exactly representable: constant exactness is C02's subject
     pre = tape.draw("c06/pre", 4)
     post = tape.draw("c06/post", 3)
+    ptr_reg = tape.pick("c06/pointer-register", [7, 7, 6, 8, 9]) if kind == "mapptr" else 7
 
     class Key(Structure):
         k = Member("I")
@@ -135,10 +272,16 @@ def run(tape, scenario):
 
             def iadd(a):
                 mm = self.mI if w == 4 else self.mQ
+                # the pointer to the map value sits in the array map's own register or in
+                # a register the user copied it to (r9: the packet is not needed any more)
+                base = self.r7
+                if ptr_reg != 7:
+                    self.r[ptr_reg] = self.r7
+                    base = self.r[ptr_reg]
                 if sub_op:
-                    mm[self.r7 + addr] -= a
+                    mm[base + addr] -= a
                 else:
-                    mm[self.r7 + addr] += a
+                    mm[base + addr] += a
             statements(self, None, iadd)
         elif kind == "subprog":
             self.subprograms[0].program()
